@@ -48,8 +48,9 @@ Section Stmt.
   Definition is_literal_atom (s : string) : bool :=
     match s with String c _ => (Nat.leb 48 (Ascii.nat_of_ascii c) && Nat.leb (Ascii.nat_of_ascii c) 57) | EmptyString => false end.
 
-  (* hasSideEffects, as written (a variable on its own counts as side effect; a binary operator if it is an assignment or
-     an operand other than a plain variable has side effects (operandHasSideEffects); a comma list always: the case for *js.CommaExpr has no `return false`, so a list without effects falls out of the switch
+  (* hasSideEffects, as written (a variable counts as side effect; a binary operator if it is an assignment or if one of
+     its operands has side effects, where a bare identifier operand counts as effect-free; a comma
+     list always: the case for *js.CommaExpr has no `return false`, so a list without effects falls out of the switch
      to the final `return true`) *)
   Fixpoint has_side_effects (e : expr) : bool :=
     match e with
@@ -62,11 +63,10 @@ Section Stmt.
     | ECond c x y => has_side_effects c || has_side_effects x || has_side_effects y
     | EPre op x => if is_op op "DeleteToken" || is_op op "PreIncrToken" || is_op op "PreDecrToken" then true else has_side_effects x
     | EPost _ _ => true
-    | EBin op x y =>
-        if is_op op "CommaToken" then true
-        else if Nat.eqb (binp T op) OpAssign then true
-        else (match x with EAtom _ | EConst CUndefined | EConst CInfinity => false | _ => has_side_effects x end) ||
-             (match y with EAtom _ | EConst CUndefined | EConst CInfinity => false | _ => has_side_effects y end)
+    | EBin op x y => if is_op op "CommaToken" then true
+                     else if Nat.eqb (binp T op) OpAssign then true
+                     else (match x with EAtom _ => false | EConst CUndefined | EConst CInfinity => false | _ => has_side_effects x end)
+                          || (match y with EAtom _ => false | EConst CUndefined | EConst CInfinity => false | _ => has_side_effects y end)
     end.
 
   (* isUndefined *)
